@@ -6,7 +6,7 @@ over a recorded defect.  A trigger is only active while its finding's stored rep
 """
 import json
 
-LIFECYCLE = ("copy", "deepcopy", "pickle", "restart")
+LIFECYCLE = ("copy", "deepcopy", "pickle", "restart", "prune", "merge")
 
 
 def _text(violation):
